@@ -8,6 +8,9 @@ import (
 
 // GenChannels draws a channel count >= 1: mostly 1..8, sometimes up to 64.
 func GenChannels(t *rapid.T) int {
+	if Chance(t, "chanHuge", 1, 60) { // more channels than a machine word has bits
+		return rapid.IntRange(65, 140).Draw(t, "channelsHuge")
+	}
 	if rapid.IntRange(0, 19).Draw(t, "chanSel") == 0 {
 		return rapid.IntRange(9, 64).Draw(t, "channelsBig")
 	}
